@@ -28,8 +28,13 @@ DAMAGE = ["missing", "empty", "truncated", "random", "json_wrong"]
 def build(h: history.History, rng: random.Random) -> Dict[str, Any]:
     """>=3 retained snapshots, a rewritten manifest, old orphans, an open
     transaction with aged files, an in-commit manifest protected by a marker."""
-    for op in [("append", 2), ("append", 1), ("append", 2), ("delete", 1), ("append", 1)]:
+    # the failed commit leaves an uncommitted metadata file carrying the SAME version number as the
+    # last committed one (what a crashed or beaten writer leaves behind)
+    for op in [("append", 2), ("append", 1), ("append", 2), ("delete", 1), ("fail_commit", 1), ("append", 1)]:
         out = h.apply(op)
+        if op[0] == "fail_commit":
+            assert not out["ok"], out
+            continue
         assert out["ok"], out
         h.observe(op, True)
     out = h.apply(("open_tx", 2))
